@@ -14,7 +14,9 @@ EXTENDS Naturals, FiniteSets
 CONSTANTS Puts, Nops,        \* operation identifiers (model values); a Put stores its own identifier
           Recheck,           \* lockFragment looks the fragment up again when it finds it closed (repair of D19)
           DeleteByIdentity,  \* wipeOutFragment removes the map entry only if it still is the wiped fragment (repair of D39)
-          Janitors, Destroys \* how many janitor passes / Destroy calls may happen
+          Janitors, Destroys, \* how many janitor passes / Destroy calls may happen
+          Compactions,        \* how many times the compaction worker may pick the slot up
+          ClosedIsDone        \* Fragment.Compaction reports "done" for a closed fragment (repair of D30)
 
 Ops == Puts \cup Nops
 None == 0
@@ -27,9 +29,10 @@ VARIABLES pmap,     \* the partition's map entry for the DMap: a fragment id, or
           pc, frag, \* per operation: control state and the fragment it looked up
           jpc, jfrag, jruns,
           dpc, dfrag, druns,
+          cpc, cfrag, cruns, \* compaction worker: Range hands out a fragment, then lock - Compaction() - unlock until "done"
           acked,    \* Puts that were acknowledged
           excused   \* operations that began before a Destroy ended: Destroy may or may not have removed their effect
-vars == <<pmap, nfrag, closed, data, lock, pc, frag, jpc, jfrag, jruns, dpc, dfrag, druns, acked, excused>>
+vars == <<pmap, nfrag, closed, data, lock, pc, frag, jpc, jfrag, jruns, dpc, dfrag, druns, cpc, cfrag, cruns, acked, excused>>
 
 Frags == 1..(Cardinality(Ops) + 1)
 
@@ -37,6 +40,7 @@ Init == /\ pmap = None /\ nfrag = 0 /\ closed = {} /\ data = [f \in Frags |-> {}
         /\ pc = [o \in Ops |-> "idle"] /\ frag = [o \in Ops |-> None]
         /\ jpc = "idle" /\ jfrag = None /\ jruns = 0
         /\ dpc = "idle" /\ dfrag = None /\ druns = 0
+        /\ cpc = "idle" /\ cfrag = None /\ cruns = 0
         /\ acked = {} /\ excused = {}
 
 (* loadOrCreateFragment, under the partition's own mutex *)
@@ -47,14 +51,14 @@ Lookup(o) == /\ pc[o] \in {"idle", "retry"}
                   ELSE /\ frag' = [frag EXCEPT ![o] = pmap] /\ UNCHANGED <<nfrag, pmap>>
              /\ pc' = [pc EXCEPT ![o] = "looked"]
              /\ excused' = IF pc[o] = "idle" /\ dpc # "idle" THEN excused \cup {o} ELSE excused
-             /\ UNCHANGED <<closed, data, lock, jpc, jfrag, jruns, dpc, dfrag, druns, acked>>
+             /\ UNCHANGED <<closed, data, lock, jpc, jfrag, jruns, dpc, dfrag, druns, cpc, cfrag, cruns, acked>>
 
 (* f.Lock(), then the look at f.ctx *)
 Lock(o) == /\ pc[o] = "looked" /\ ~lock[frag[o]]
            /\ IF Recheck /\ frag[o] \in closed
                 THEN pc' = [pc EXCEPT ![o] = "retry"] /\ UNCHANGED lock          \* Unlock at once, look up again
                 ELSE pc' = [pc EXCEPT ![o] = "locked"] /\ lock' = [lock EXCEPT ![frag[o]] = TRUE]
-           /\ UNCHANGED <<pmap, nfrag, closed, data, frag, jpc, jfrag, jruns, dpc, dfrag, druns, acked, excused>>
+           /\ UNCHANGED <<pmap, nfrag, closed, data, frag, jpc, jfrag, jruns, dpc, dfrag, druns, cpc, cfrag, cruns, acked, excused>>
 
 (* the write (or nothing) and the deferred Unlock; the reply follows *)
 Apply(o) == /\ pc[o] = "locked"
@@ -62,7 +66,7 @@ Apply(o) == /\ pc[o] = "locked"
             /\ lock' = [lock EXCEPT ![frag[o]] = FALSE]
             /\ pc' = [pc EXCEPT ![o] = "done"]
             /\ acked' = IF o \in Puts THEN acked \cup {o} ELSE acked
-            /\ UNCHANGED <<pmap, nfrag, closed, frag, jpc, jfrag, jruns, dpc, dfrag, druns, excused>>
+            /\ UNCHANGED <<pmap, nfrag, closed, frag, jpc, jfrag, jruns, dpc, dfrag, druns, cpc, cfrag, cruns, excused>>
 
 Wipe(f) == /\ closed' = closed \cup {f}
            /\ pmap' = IF DeleteByIdentity /\ pmap # f THEN pmap ELSE None
@@ -70,33 +74,55 @@ Wipe(f) == /\ closed' = closed \cup {f}
 (* janitor: Range hands out the fragment that is in the map now *)
 JRange == /\ jpc = "idle" /\ jruns < Janitors /\ pmap # None
           /\ jfrag' = pmap /\ jpc' = "ranged"
-          /\ UNCHANGED <<pmap, nfrag, closed, data, lock, pc, frag, jruns, dpc, dfrag, druns, acked, excused>>
+          /\ UNCHANGED <<pmap, nfrag, closed, data, lock, pc, frag, jruns, dpc, dfrag, druns, cpc, cfrag, cruns, acked, excused>>
 JLock == /\ jpc = "ranged" /\ ~lock[jfrag]
          /\ lock' = [lock EXCEPT ![jfrag] = TRUE] /\ jpc' = "locked"
-         /\ UNCHANGED <<pmap, nfrag, closed, data, pc, frag, jfrag, jruns, dpc, dfrag, druns, acked, excused>>
+         /\ UNCHANGED <<pmap, nfrag, closed, data, pc, frag, jfrag, jruns, dpc, dfrag, druns, cpc, cfrag, cruns, acked, excused>>
 JWipe == /\ jpc = "locked"
          /\ IF data[jfrag] = {} THEN Wipe(jfrag) ELSE UNCHANGED <<closed, pmap>>
          /\ lock' = [lock EXCEPT ![jfrag] = FALSE] /\ jpc' = "idle" /\ jruns' = jruns + 1
-         /\ UNCHANGED <<nfrag, data, pc, frag, jfrag, dpc, dfrag, druns, acked, excused>>
+         /\ UNCHANGED <<nfrag, data, pc, frag, jfrag, dpc, dfrag, druns, cpc, cfrag, cruns, acked, excused>>
 
 (* Destroy: everything that began before it ends is excused *)
 Started == {o \in Ops : pc[o] # "idle"}
 DStart == /\ dpc = "idle" /\ druns < Destroys
           /\ dpc' = "started" /\ excused' = excused \cup Started
-          /\ UNCHANGED <<pmap, nfrag, closed, data, lock, pc, frag, jpc, jfrag, jruns, dfrag, druns, acked>>
+          /\ UNCHANGED <<pmap, nfrag, closed, data, lock, pc, frag, jpc, jfrag, jruns, dfrag, druns, cpc, cfrag, cruns, acked>>
 DLoad == /\ dpc = "started"
          /\ IF pmap = None THEN dpc' = "idle" /\ druns' = druns + 1 /\ UNCHANGED dfrag
                            ELSE dpc' = "loaded" /\ dfrag' = pmap /\ UNCHANGED druns
          /\ excused' = excused \cup Started
-         /\ UNCHANGED <<pmap, nfrag, closed, data, lock, pc, frag, jpc, jfrag, jruns, acked>>
+         /\ UNCHANGED <<pmap, nfrag, closed, data, lock, pc, frag, jpc, jfrag, jruns, cpc, cfrag, cruns, acked>>
 DWipe == /\ dpc = "loaded"
          /\ Wipe(dfrag)                      \* no fragment lock
          /\ dpc' = "idle" /\ druns' = druns + 1 /\ excused' = excused \cup Started
-         /\ UNCHANGED <<nfrag, data, lock, pc, frag, jpc, jfrag, jruns, dfrag, acked>>
+         /\ UNCHANGED <<nfrag, data, lock, pc, frag, jpc, jfrag, jruns, dfrag, cpc, cfrag, cruns, acked>>
+
+(* compaction worker (doCompaction / callCompactionOnFragment): Range hands out the fragment that is in the map; then, until
+   Compaction() says "done": Lock, one compaction step, Unlock, a millisecond's pause.  The storage of an open fragment is
+   done after one step here (what a step moves is KVStore.tla's business); a CLOSED fragment reported "not done" for ever in
+   the code as found - the worker never came back and the member was never compacted again (D30) *)
+Others == <<pmap, nfrag, closed, data, pc, frag, jpc, jfrag, jruns, dpc, dfrag, druns, acked, excused>>
+CRange == /\ cpc = "idle" /\ cruns < Compactions /\ pmap # None
+          /\ cfrag' = pmap /\ cpc' = "ranged" /\ UNCHANGED <<lock, cruns>> /\ UNCHANGED Others
+CLock == /\ cpc = "ranged" /\ ~lock[cfrag]
+         /\ lock' = [lock EXCEPT ![cfrag] = TRUE] /\ cpc' = "locked" /\ UNCHANGED <<cfrag, cruns>> /\ UNCHANGED Others
+CStep == /\ cpc = "locked"
+         /\ lock' = [lock EXCEPT ![cfrag] = FALSE]
+         /\ IF cfrag \in closed /\ ~ClosedIsDone
+              THEN cpc' = "ranged" /\ UNCHANGED cruns          \* "not done": call again
+              ELSE cpc' = "idle" /\ cruns' = cruns + 1
+         /\ UNCHANGED cfrag /\ UNCHANGED Others
 
 Next == \/ \E o \in Ops : Lookup(o) \/ Lock(o) \/ Apply(o)
         \/ JRange \/ JLock \/ JWipe \/ DStart \/ DLoad \/ DWipe
+        \/ CRange \/ CLock \/ CStep
 Spec == Init /\ [][Next]_vars
+\* the worker's own steps are taken when they can be
+FairSpec == Spec /\ WF_vars(CLock) /\ WF_vars(CStep) /\ \A o \in Ops : WF_vars(Lock(o)) /\ WF_vars(Apply(o)) /\ WF_vars(Lookup(o))
+                 /\ WF_vars(JLock) /\ WF_vars(JWipe)
+\* the compaction worker always gets through the slot (it is idle again and again)
+WorkerReturns == []<>(cpc = "idle")
 
 (* what a user relies on: an acknowledged Put that began after every Destroy before it had ended is found by a read
    (reads look the fragment up in the partition's map) *)
@@ -104,4 +130,6 @@ Readable == \A o \in acked \ excused : pmap # None /\ o \in data[pmap]
 (* the fragment lock is exclusive; nobody but the map's fragment is ever written by a Put that saw it open *)
 LockExclusive == /\ \A o1, o2 \in Ops : (o1 # o2 /\ pc[o1] = "locked" /\ pc[o2] = "locked") => frag[o1] # frag[o2]
                  /\ \A o \in Ops : (pc[o] = "locked" /\ jpc = "locked") => frag[o] # jfrag
+                 /\ \A o \in Ops : (pc[o] = "locked" /\ cpc = "locked") => frag[o] # cfrag
+                 /\ (jpc = "locked" /\ cpc = "locked") => jfrag # cfrag
 =============================================================================
